@@ -1219,7 +1219,7 @@ Proof.
   congruence.
 Qed.
 
-(* the code without the outbound bracket (/repo before 4c5edc2): refuted *)
+(* the code without the outbound bracket (/repo before cacc087): refuted *)
 Theorem usable_mutual_v1_refuted :
   exists c sched id,
     well_formed (ini c) /\ well_formed (rsp c) /\
